@@ -112,6 +112,38 @@ pub struct CheckCtx {
 /// Result of running one case.
 pub type CaseOutcome = (CaseInfo, Option<Violation>);
 
+/// Heartbeat of the running check: bumped for every case the collector records.
+pub static HEARTBEAT: AtomicU64 = AtomicU64::new(0);
+/// Set while a phase runs that legitimately records nothing for minutes (the libFuzzer campaign).
+pub static WATCHDOG_PAUSED: AtomicBool = AtomicBool::new(false);
+
+/// Hang watchdog: if no case completes for `VERIF_HANG_S` seconds (default 600) the process ends with exit code 2
+/// (infrastructure / inconclusive, never a violation). A change to the code under test can make a call block for
+/// ever (e.g. a dispatch whose wake-ups are swallowed); the checks end such cases themselves where they can (C11,
+/// C12 rescue with a real event), this is the backstop. Not started for C19 (its process must stay single-threaded).
+pub fn start_hang_watchdog(prop: &str) {
+    let limit: u64 = std::env::var("VERIF_HANG_S").ok().and_then(|s| s.parse().ok()).unwrap_or(600);
+    let prop = prop.to_string();
+    let _ = std::thread::Builder::new().name("vh-hang-watchdog".into()).stack_size(64 * 1024).spawn(move || {
+        let mut last = HEARTBEAT.load(Ordering::Relaxed);
+        let mut idle = 0u64;
+        loop {
+            std::thread::sleep(Duration::from_secs(5));
+            let cur = HEARTBEAT.load(Ordering::Relaxed);
+            if cur != last || WATCHDOG_PAUSED.load(Ordering::Relaxed) {
+                last = cur;
+                idle = 0;
+                continue;
+            }
+            idle += 5;
+            if idle >= limit {
+                eprintln!("INFRA: property {prop}: no case completed for {limit} s (a call in the code under test or in the harness does not return); inconclusive, not a violation");
+                std::process::exit(2);
+            }
+        }
+    });
+}
+
 pub fn verif_dir() -> PathBuf {
     if let Ok(d) = std::env::var("VERIF_DIR") {
         return PathBuf::from(d);
